@@ -55,7 +55,7 @@ AlphaFull == AlphaMid \cup AllSlices \cup {VarAttr("run"), VarAttr("fill"), VarA
               VarAttr("fill_into"), Map("upd"), Filter("all"), RunIf("even", "drop")}
 AlphaSmall == {Map("inc"), VarAttr("run"), Filter("even"), Slice(0, 2, 1), Slice(1, 3, 2), RunIf("lt2", "drop"),
                CFilter("odd", "str"), CFilter("variable", "fn"), CRunIf("odd", "inc")}
-AlphaThorough == AlphaSmall \cup {Map("var"), VarAttr("fill"), Map("tag"), CFilter("t", "str"), Filter("none")}
+AlphaThorough == AlphaSmall \cup {Map("var"), VarAttr("fill"), Map("tag"), CFilter("t", "str")}
 AlphaDeep == {Map("inc"), Map("var"), Filter("even"), Slice(0, 2, 1), Slice(1, 3, 2), CFilter("odd", "str"), CRunIf("odd", "inc")}
 PostsSmall == {<<>>, <<Map("inc")>>, <<Sum>>}
 AccsSmall == {"sum", "store1"}
